@@ -634,7 +634,11 @@ class ConstantExtractor( ast.NodeVisitor ):
 
   def visit_Name( s, node ):
     name = node.id
-    if name in s.closure:
+    if name in s.blk.__code__.co_varnames:
+      # a local of the block (loop variable, temporary) is not a constant,
+      # even if the module has a global of the same name
+      obj = None
+    elif name in s.closure:
       # free var from closure
       obj = s.closure[ name ]
     elif name in s.globals:
